@@ -258,7 +258,8 @@ def handle (line : String) : String :=
       let cStay := metas.all (specStay tr)
       let notCancelled := rs.filter fun r => !specCancelled m tr r
       let cCancel := notCancelled.isEmpty
-      let cObs := health && closed && late == some 0
+      -- (`early=1`: close() returned while a started detached handler had not ended)
+      let cObs := health && closed && late == some 0 && kv "early" obs != some "1"
       let others := cOne && cDrop && cDet && cDel && cPanic && cStay && cObs
       let spec := others && cCancel
       let kindOf (r : Nat) : String := (metas.find? (·.r == r)).map (·.kind) |>.getD "?"
